@@ -213,6 +213,40 @@ def check(repo: Repo, run: Run) -> None:
            "the current document (and nothing else) is stored into the activation before evaluate(): the k-th output depends only on the k-th document", mn.loc(pj))
     glob_writes = [n for n in ast.walk(pj) if isinstance(n, (ast.Global, ast.Nonlocal))]
     run.ob("C20.S3", "process_json_doc|no-outer-state", not glob_writes, "process_json_doc writes no outer state", mn.loc(pj))
+    # S5: a binding given on the command line is used as given ----------------------------------
+    # `-a name:type=value`: the environment is consulted only when the `=value` part is ABSENT (the group is None);
+    # deciding absence by truthiness would turn an explicit empty value into "absent"
+    atv = mn.func("arg_type_value") if mn.has("arg_type_value") else None
+    if atv is None:
+        run.inconclusive("C20.S5", "arg_type_value", "function not found")
+    else:
+        grp = set()
+        for n in ast.walk(atv):
+            if isinstance(n, ast.Assign) and isinstance(n.targets[0], (ast.Tuple, ast.List)) and "groups()" in ast.unparse(n.value):
+                grp |= {t.id for t in n.targets[0].elts if isinstance(t, ast.Name)}
+            if isinstance(n, ast.Assign) and isinstance(n.targets[0], ast.Name) and ".group(" in ast.unparse(n.value):
+                grp.add(n.targets[0].id)
+        bad, good = [], []
+        for n in ast.walk(atv):
+            if isinstance(n, (ast.If, ast.IfExp)):
+                t = strip_cast(n.test)
+                body_txt = ast.unparse(n.body) if isinstance(n, ast.IfExp) else ast.unparse(ast.Module(body=n.body, type_ignores=[]))
+                if "environ" not in body_txt and "getenv" not in body_txt:
+                    continue
+                neg = t.operand if isinstance(t, ast.UnaryOp) and isinstance(t.op, ast.Not) else None
+                if isinstance(neg, ast.Name) and neg.id in grp:
+                    bad.append(ast.unparse(t))
+                elif isinstance(t, ast.Compare) and isinstance(t.left, ast.Name) and t.left.id in grp and isinstance(t.ops[0], (ast.Is, ast.Eq)) and ast.unparse(t.comparators[0]) == "None":
+                    good.append(ast.unparse(t))
+                elif isinstance(t, ast.Compare) and isinstance(t.left, ast.Name) and t.left.id in grp and isinstance(t.ops[0], ast.Eq) and ast.unparse(t.comparators[0]) in ("''", '""'):
+                    bad.append(ast.unparse(t))
+        if bad:
+            run.ob("C20.S5", "arg_type_value|explicit-empty", False,
+                   f"arg_type_value falls back to the environment under `{bad[0]}`: an explicit empty value (`-a x:string=`) is replaced by the environment variable or by None", mn.loc(atv))
+        elif good:
+            run.ob("C20.S5", "arg_type_value|explicit-empty", True, f"the environment is consulted only when the value part is absent (`{good[0]}`)", mn.loc(atv))
+        else:
+            run.inconclusive("C20.S5", "arg_type_value", "the guard of the environment fallback was not recognised")
     # S4 -----------------------------------------------------------------
     disp = [n for n in ast.walk(main) if isinstance(n, ast.FunctionDef) and n.name == "output_display"]
     enc = [d for d in disp if "json.dumps(result_value, cls=CELJSONEncoder)" in ast.unparse(d)]
